@@ -709,7 +709,10 @@ func (s *Netceptor) RemoveLocalServiceAdvertisement(service string) error {
 	s.serviceAdsLock.Lock()
 	defer s.serviceAdsLock.Unlock()
 	n, ok := s.serviceAdsReceived[s.nodeID]
-	connType := n[service].ConnType
+	var connType byte
+	if ad, adOK := n[service]; adOK && ad != nil {
+		connType = ad.ConnType
+	}
 	if ok {
 		delete(n, service)
 	}
